@@ -278,7 +278,7 @@ impl<const BUFFER_SIZE: usize, const MAX_STREAMS: usize> Channel<BUFFER_SIZE, MA
 
 
 def unit_xb():
-    u = unit_arc("crossbeam", "src/multi/channels/arc/crossbeam.rs", Rule("R6-try-send", r"\bsender\.try_send\(arc_item\.clone\(\)\)", "self.try_send_to(*stream_id, arc_item.clone())", count=2))
+    u = unit_arc("crossbeam", "src/multi/channels/arc/crossbeam.rs", Rule("R6-try-send", r"\bsender\.try_send\(arc_item\.clone\(\)\)", "self.try_send_to(*stream_id, arc_item.clone())", min=1))
     f = u.fns[0]
     f.rules = [r for r in f.rules if r.rid != "R6-queue"] + [
         Rule("R6-sender", r"let sender = unsafe \{ self\.senders\.get_unchecked\(\*stream_id as usize\) \};", "", count=1, note="unchecked sender lookup folded into the shims (index bound obligation)"),
@@ -401,7 +401,7 @@ pub struct Channel<const BUFFER_SIZE: usize, const MAX_STREAMS: usize> {
     pub pushed: Ghost<Seq<nat>>,
 }
 impl<const BUFFER_SIZE: usize, const MAX_STREAMS: usize> Channel<BUFFER_SIZE, MAX_STREAMS> {
-    pub open spec fn wf(&self) -> bool { self.streams_manager.inv_sm() && self.lens@.len() == MAX_STREAMS && self.pushed@.len() == MAX_STREAMS && BUFFER_SIZE >= 3 }
+    pub open spec fn wf(&self) -> bool { self.streams_manager.inv_sm() && self.lens@.len() == MAX_STREAMS && self.pushed@.len() == MAX_STREAMS && BUFFER_SIZE >= 1 }
     pub open spec fn frame(&self, o: &Self) -> bool { self.streams_manager == o.streams_manager && self.lens@.len() == o.lens@.len() && self.pushed@.len() == o.pushed@.len() }
     /// ring `publish_movable(handle)` of listener `id`: accepted <=> its queue has room right now
     #[verifier::external_body]
@@ -453,7 +453,7 @@ def unit_arc_waits(kind, file, attempt_rules):
     f.container = "impl<const BUFFER_SIZE: usize, const MAX_STREAMS: usize> Channel<BUFFER_SIZE, MAX_STREAMS>"
     return Unit(f"fanout_arc_waits_{kind}", [f], spec=SPEC_WAITS,
                 trusted=["publish_to / try_send_to / sender_len: the listener queue's contract (accepted <=> room right now), env_sleep: the environment", "wake_stream, Arc::clone: shims"],
-                assumptions=["termination of the waiting arm (consumer progress) is NOT proved", "BUFFER_SIZE >= 3 (the crossbeam channel's `len_before <= 2 => try_send once` arm relies on it)",
+                assumptions=["termination of the waiting arm (consumer progress) is NOT proved", 
                              "listener churn during the loop is NOT decided (C17)"])
 
 
